@@ -87,6 +87,12 @@ func (k *MPublickey) Verify(input []byte, sig Signature) error {
 		return errors.Wrap(err, "verify signature by publickey")
 	}
 
+	// NOTE (r, s) and (r, n-s) are both valid ECDSA signature for same message;
+	// only the canonical low-S form, which Sign() always produces, is accepted.
+	if s := bsig.S(); s.IsOverHalfOrder() {
+		return ErrSignatureVerification.Errorf("non-canonical signature; high S")
+	}
+
 	if !bsig.Verify(chainhash.DoubleHashB(input), k.k) {
 		return ErrSignatureVerification.WithStack()
 	}
